@@ -491,12 +491,24 @@ type ptrErr struct{ msg string }
 
 func (p *ptrErr) Error() string { return p.msg } // panics on a nil receiver
 
+// causeErr is a pkg/errors- or juju/errors-style error: it has a Cause() method,
+// which may return nil (no underlying cause) or another error.
+type causeErr struct {
+	msg   string
+	cause error
+}
+
+func (c *causeErr) Error() string { return c.msg }
+func (c *causeErr) Cause() error  { return c.cause }
+
 var errKinds = []error{
 	nil, // the default errInjected
 	multiErr{errors.New("verif-inner-a"), errors.New("verif-inner-b")},
 	(*ptrErr)(nil),
 	&ptrErr{"verif-pointer-error"},
 	fmt.Errorf("verif-wrapping: %w", errors.New("verif-wrapped")),
+	&causeErr{"verif-annotated-without-cause", nil},
+	&causeErr{"verif-annotated", errors.New("verif-root-cause")},
 }
 
 func sameErr(a, b error) bool {
